@@ -148,8 +148,15 @@ func (d *Discharger) solve(text string, wantModel bool) Result {
 	var tried []string
 	var total float64
 	definite := false
-	for _, sd := range solvers {
-		r := runSolver(sd, file, d.timeout, d.seed)
+	for si, sd := range solvers {
+		to := d.timeout
+		if !wantModel { // cover query: only an unsat answer matters (vacuity), and it comes quickly if at all
+			if si > 0 && !d.all {
+				break
+			}
+			to = 2
+		}
+		r := runSolver(sd, file, to, d.seed)
 		total += r.Seconds
 		tried = append(tried, fmt.Sprintf("%s=%s(%.2fs)", sd.name, r.Status, r.Seconds))
 		if r.Status == "unsat" || r.Status == "sat" {
@@ -186,22 +193,52 @@ type job struct {
 }
 
 func (d *Discharger) solveAll(jobs []*job, workers int) {
+	// identical query texts are solved once
+	type group struct {
+		text  string
+		model bool
+		jobs  []*job
+		res   Result
+	}
+	byText := map[string]*group{}
+	var groups []*group
+	for _, j := range jobs {
+		g := byText[j.text]
+		if g == nil {
+			g = &group{text: j.text}
+			byText[j.text] = g
+			groups = append(groups, g)
+		}
+		g.jobs = append(g.jobs, j)
+		if j.q.Expect == "unsat" {
+			g.model = true
+		}
+	}
 	var wg sync.WaitGroup
-	ch := make(chan *job)
+	ch := make(chan *group)
 	for i := 0; i < workers; i++ {
 		wg.Add(1)
 		go func() {
 			defer wg.Done()
-			for j := range ch {
-				j.res = d.solve(j.text, j.q.Expect == "unsat")
+			for g := range ch {
+				g.res = d.solve(g.text, g.model)
 			}
 		}()
 	}
 	// larger queries first
-	sort.SliceStable(jobs, func(a, b int) bool { return len(jobs[a].text) > len(jobs[b].text) })
-	for _, j := range jobs {
-		ch <- j
+	sort.SliceStable(groups, func(a, b int) bool { return len(groups[a].text) > len(groups[b].text) })
+	for _, g := range groups {
+		ch <- g
 	}
 	close(ch)
 	wg.Wait()
+	for _, g := range groups {
+		for i, j := range g.jobs {
+			j.res = g.res
+			if i > 0 {
+				j.res.Seconds = 0
+				j.res.Cached = true
+			}
+		}
+	}
 }
